@@ -213,6 +213,10 @@ func runC03(c *Ctx) {
 	// shared with C04/C09: the matches of a result were computed for this input - Match keeps nothing between calls that a
 	// later or overlapping call could write into (R04.1)
 	matchReadOnly(c, p, "R04.1")
+	// shared with C08: no line of the input is counted twice or skipped where two read windows meet - the bytes carried over
+	// to the next window start where the rune loop stopped (R08.4/R08.5/R08.8); otherwise TotalInputLines and EndLine can
+	// exceed the number of lines of the input
+	tokenizerWindowRules(c, p)
 	fns := v2Funcs(p)
 	lits := structLits(fns, "/v2.Match")
 	nLicense, nCopyright := 0, 0
